@@ -125,8 +125,8 @@ type thread struct {
 	nobj   int
 	nspawn int
 	// mayBlock: the scenario declares that this thread may stay blocked forever.
-	mayBlock bool
-	body     func()
+	mayBlock      bool
+	body          func()
 	spawnedByCode bool
 }
 
@@ -163,6 +163,7 @@ type timerState struct {
 	ch       *chanState
 	realCh   any
 	send     func(now int64) item
+	onFire   func() // runs in the step in which the timer fires (context deadlines)
 }
 
 // ---------------------------------------------------------------------------
@@ -181,28 +182,29 @@ const (
 )
 
 type point struct {
-	n       int   // alternatives
-	costs   []int // deviation cost (preemptions) per alternative
-	fcosts  []int // fault cost per alternative
-	ocosts  []int // map-order deviation cost per alternative
+	n         int   // alternatives
+	costs     []int // deviation cost (preemptions) per alternative
+	fcosts    []int // fault cost per alternative
+	ocosts    []int // map-order deviation cost per alternative
 	ordBefore int
-	chosen  int
+	chosen    int
 	preBefore int
 	fltBefore int
 }
 
 type execution struct {
-	threads  []*thread
-	ready    []*thread
-	cur      *thread
-	last     *thread
-	chans    map[unsafe.Pointer]*chanState
-	chanList []*chanState
-	syncs    map[unsafe.Pointer]*syncState
-	syncList []*syncState
-	timers   []*timerState
+	threads   []*thread
+	ready     []*thread
+	cur       *thread
+	last      *thread
+	chans     map[unsafe.Pointer]*chanState
+	chanList  []*chanState
+	syncs     map[unsafe.Pointer]*syncState
+	syncList  []*syncState
+	timers    []*timerState
 	timerArms []int64
-	clock    int64
+	nctx      int
+	clock     int64
 
 	prefix []int
 	points []point
@@ -212,20 +214,20 @@ type execution struct {
 	faults   int
 	orders   int
 
-	opts     *Options
-	visited  map[uint64]uint16
-	aborting bool
-	finished chan struct{}
+	opts      *Options
+	visited   map[uint64]uint16
+	aborting  bool
+	finished  chan struct{}
 	finalizer *thread
 
-	outcome string
-	msg     string
-	blocked []string
-	glog    []string
-	gdigest uint64
-	trace   []string
-	user    any
-	newStates int
+	outcome        string
+	msg            string
+	blocked        []string
+	glog           []string
+	gdigest        uint64
+	trace          []string
+	user           any
+	newStates      int
 	transitionsNew int
 }
 
@@ -249,16 +251,16 @@ type Options struct {
 
 // Result of one execution.
 type Result struct {
-	Outcome string
-	Msg     string
-	Blocked []string
-	Choices []int
-	Logs    map[string][]string // per thread name
-	GLog    []string
-	Trace   []string
-	Steps   int
-	points  []point
-	NewStates int
+	Outcome          string
+	Msg              string
+	Blocked          []string
+	Choices          []int
+	Logs             map[string][]string // per thread name
+	GLog             []string
+	Trace            []string
+	Steps            int
+	points           []point
+	NewStates        int
 	Preempts, Faults int
 	// User is what the scenario body registered with SetUser (its per-execution world).
 	User any
@@ -769,6 +771,9 @@ func (e *execution) apply(tr transition) {
 		if len(tm.ch.buf) < tm.ch.cap {
 			tm.ch.buf = append(tm.ch.buf, tm.send(e.clock))
 		}
+		if tm.onFire != nil {
+			tm.onFire()
+		}
 		if e.opts.Trace {
 			e.trace = append(e.trace, fmt.Sprintf("clock: timer fires, now=%dns", e.clock))
 		}
@@ -1046,6 +1051,13 @@ func ChooseOrder(n int, what string) int {
 	o := &op{kind: opChoose, n: n, local: true, cost: 1, order: true, what: what}
 	E.yield(o)
 	return o.chosen
+}
+
+// AbsorbInt folds an integer the current thread observed into its history.
+func AbsorbInt(v int64) {
+	if E != nil && E.cur != nil {
+		E.cur.hist = mix(E.cur.hist, uint64(v)+0x1234567)
+	}
 }
 
 // Absorb folds a value the current thread observed from outside the shims into its history.
